@@ -8,17 +8,11 @@ open Perp Perp.World Perp.Engine Perp.Spec Perp.Spec.W Perp.Props.ModelStep
 open Perp.Props.Dispatch Perp.Props.SatTrace Perp.Props.SatFlows
 open Perp.Props.MirrorP (AllCE SD SignDirE)
 
-/-- **sub-case hypothesis of `sat_C17`** (rule 3).  The sender holds no *stale* record on the vAMM that
-    points the other way: a stored record of size zero (left behind by a reversal of equal size, a
-    reduce that rounded to zero, or a 100 % partial liquidation) whose direction is opposite to the order's
-    side.  With such a record `open_position` takes the reversal path (`swap_output` of 0 base, then
-    `swap_input` of the whole notional with `base_asset_limit = 0`): the caller's limit is dropped although
-    the trade simply opens a position — clause `open-base-limit-not-honoured(…)` fails
-    (`SatE.c17_witness`). -/
-def NoStaleOpposite (w : World) (s : Nat) (tx : Tx) : Prop :=
-  ∀ v side m l b, tx = .engine (.openPosition v side m l b) →
-    W.hasPos w v s = true → (readPosition w.engine v s).size.value = 0 →
-      (readPosition w.engine v s).direction = sideToDirection side
+/- (The former sub-case hypothesis `NoStaleOpposite` — "no stored record of size zero whose direction is
+   opposite to the order's side" — is gone: `open_position` now treats a stored record of size zero like an
+   absent one, so such an order takes the increase path and its `swap_input` carries the caller's limit;
+   the reversal path is only taken for a record of non-zero size, where — under `SignDir` — the position
+   flips sign or ends at zero.  `SatEWitness.c17_witness` replays the former counterexample.) -/
 
 theorem hasPos_of_vamm_ne (w : World) (v t : Nat) (h : (readPosition w.engine v t).vamm ≠ 0) :
     W.hasPos w v t = true := by
@@ -36,10 +30,7 @@ theorem toInt_zero_iff (a : Integer) : a.toInt = 0 ↔ a.value = 0 := by
     base amount on the right side of the limit -/
 theorem open_core (w w' : World) (env : Env) (s : Nat) (f : Funds) (v : Nat) (side : Side) (m l b : Nat)
     (h : applyTx w env s f (.engine (.openPosition v side m l b)) = .ok w')
-    (hsd : SignDirE w.engine)
-    (hns : W.hasPos w v s = true → (readPosition w.engine v s).size.value = 0 →
-      (readPosition w.engine v s).direction = sideToDirection side)
-    (hb : b ≠ 0) :
+    (hsd : SignDirE w.engine) (hb : b ≠ 0) :
     (readPosition w.engine v s).size.toInt * (readPosition w'.engine v s).size.toInt < 0
     ∨ (readPosition w'.engine v s).size.toInt = 0
     ∨ ((side = .buy → b ≤ ((readPosition w'.engine v s).size.toInt - (readPosition w.engine v s).size.toInt).natAbs)
@@ -48,7 +39,7 @@ theorem open_core (w w' : World) (env : Env) (s : Nat) (f : Funds) (v : Nat) (si
     open_flow w w' env s f v side m l b h
   have hrd : readPosition e1 v s = readPosition w.engine v s := WorldInv.rp_same v s hpos
   rcases hcase with ⟨id, hid, x', bo, w2, e3, subs3, hswap, hrep, _, he3, _⟩
-      | ⟨hdir, x1, qo, w2, e3, subs3, hswap, hrep, hcase2⟩
+      | ⟨⟨hnzp, hdir⟩, x1, qo, w2, e3, subs3, hswap, hrep, hcase2⟩
   · -- increase / reduce: one swap with the caller's limit
     right; right
     obtain ⟨⟨p', hp', pv, pt, psz, _⟩, _⟩ := MirrorP.updatePositionReply_eff _ _ _ _ _ _ sw hsw _ hrep
@@ -104,16 +95,12 @@ theorem open_core (w w' : World) (env : Env) (s : Nat) (f : Funds) (v : Nat) (si
       rw [MirrorP.getPosition_direction] at hdir
       have hgd := MirrorP.gdir_ne hdir
       rw [hgd] at hdir
-      have hvz : (readPosition w.engine v s).vamm ≠ 0 := by
-        intro hz
-        unfold MirrorP.gdir at hgd
-        rw [if_pos hz] at hgd
-        exact hdir hgd.symm
-      have hhp := hasPos_of_vamm_ne w v s hvz
       have hSD := MirrorP.SD_read w.engine v s hsd
+      -- the reversal path is only taken for a record of non-zero size
       have hnz : (readPosition w.engine v s).size.toInt ≠ 0 := by
         intro h0
-        exact hdir (hns hhp ((toInt_zero_iff _).1 h0))
+        rw [MirrorP.getPosition_size] at hnzp
+        exact hnzp ((C19.isZero_iff _).2 h0)
       rcases Int.lt_or_gt_of_ne hnz with hneg | hposi
       · have hd := hSD.2 hneg
         cases side with
@@ -257,9 +244,9 @@ theorem check_other (st : Step) (h1 : ∀ v side m l b, st.tx ≠ .engine (.open
       · cases hm
     · rfl
 
-/-- **C17, clean form**: under the sign/direction invariant and without a stale opposite record -/
+/-- **C17, clean form**: under the sign/direction invariant -/
 theorem sat_C17 (w : World) (env : Env) (s : Nat) (f : Funds) (tx : Tx)
-    (hsd : SignDirE w.engine) (hns : NoStaleOpposite w s tx) :
+    (hsd : SignDirE w.engine) :
     Spec.C17.check (modelStep w env s f tx) = [] := by
   cases hx : applyTx w env s f tx with
   | error e =>
@@ -271,16 +258,17 @@ theorem sat_C17 (w : World) (env : Env) (s : Nat) (f : Funds) (tx : Tx)
     by_cases ho : ∃ v side m l b, tx = .engine (.openPosition v side m l b)
     · obtain ⟨v, side, m, l, b, rfl⟩ := ho
       exact check_open w w' env s f v side m l b
-        (fun hb => open_core w w' env s f v side m l b hx hsd (hns v side m l b rfl) hb)
+        (fun hb => open_core w w' env s f v side m l b hx hsd hb)
     · by_cases hcl : ∃ v l, tx = .engine (.closePosition v l)
       · obtain ⟨v, l, rfl⟩ := hcl
         exact check_close w w' env s f v l (fun hl hp => close_core w w' env s f v l hx hl hp)
       · exact check_other _ (fun v side m l b hh => ho ⟨v, side, m, l, b, hh⟩) (fun v l hh => hcl ⟨v, l, hh⟩)
 
-/-- **C17, general form**: without any hypothesis the only clauses that can fail are the two
-    OpenPosition limit clauses (reversal path: stale opposite record, or a record whose sign disagrees with
-    its direction); the ClosePosition clauses always hold -/
-theorem C17_tags (w : World) (env : Env) (s : Nat) (f : Funds) (tx : Tx) :
+/-- **C17 without the invariant**: with no hypothesis at all (in particular without `SignDir`) the only
+    clauses that can fail are the two OpenPosition limit clauses (reversal path on a record whose sign
+    disagrees with its direction, `SatEWitness.c17_needs_signDir`); the ClosePosition clauses always hold.
+    Under `SignDir` nothing fails: `sat_C17` / `C17_tags`. -/
+theorem C17_tags_noInv (w : World) (env : Env) (s : Nat) (f : Funds) (tx : Tx) :
     ∀ tag ∈ Spec.C17.check (modelStep w env s f tx),
       tag ∈ ["open-base-limit-not-honoured(buy)", "open-base-limit-not-honoured(sell)"] := by
   cases hx : applyTx w env s f tx with
@@ -313,5 +301,13 @@ theorem C17_tags (w : World) (env : Env) (s : Nat) (f : Funds) (tx : Tx) :
       · rw [check_other _ (fun v side m l b hh => ho ⟨v, side, m, l, b, hh⟩) (fun v l hh => hcl ⟨v, l, hh⟩)]
         intro tag ht
         cases ht
+
+/-- **C17, general form** — now a corollary of the clean form: under the sign/direction invariant no
+    clause can fail (the list of tags that can occur is empty) -/
+theorem C17_tags (w : World) (env : Env) (s : Nat) (f : Funds) (tx : Tx) (hsd : SignDirE w.engine) :
+    ∀ tag ∈ Spec.C17.check (modelStep w env s f tx), tag ∈ ([] : List String) := by
+  rw [sat_C17 w env s f tx hsd]
+  intro tag ht
+  exact ht
 
 end Perp.Props.SatC17
